@@ -137,6 +137,8 @@ def generate(repo, out, write_if_changed):
                     stale.append("allow_section_offset: arm not understood: " + expr[:80])
         if not seen_default:
             stale.append("allow_section_offset: no `_` arm")
+    if stale:
+        return stale
     q = lambda s: '"' + s.replace('"', "'") + '"'
     lean = "-- GENERATED by tools/tables_c03.py (via tools/extract_tables.py) from src/read/abbrev.rs, src/read/unit.rs, src/constants.rs — do not edit\n"
     lean += "namespace Gimli.Tables.AttrSize\n\n"
@@ -152,3 +154,4 @@ def generate(repo, out, write_if_changed):
     lean += "def stale : List String := [" + ", ".join(q(x) for x in stale) + "]\n\n"
     lean += "end Gimli.Tables.AttrSize\n"
     write_if_changed(os.path.join(out, "AttrSize.lean"), lean)
+    return []
